@@ -122,8 +122,9 @@ def octal(digits):
     return v
 
 
-def fail(e=None):
-    return ["f"]
+def rep(b: bytes) -> str:
+    """Bytes as they appear in an observation: hex, or a digest when large."""
+    return b.hex() if len(b) <= 1024 else f"sha1:{hashlib.sha1(b).hexdigest()}:{len(b)}"
 
 
 def describe(e: BaseException) -> str:
@@ -193,9 +194,9 @@ def run_case(I: Impl, fam: str, inp, exp, details: dict):
                                  list(I.sorted_tree_items(d, bool(name_order)))], details, "call")]
     if fam in ("delta", "deltax", "deltatrace"):
         base, delta = (bytes(inp[0]), bytes(inp[1])) if fam != "deltatrace" else (bytes.fromhex(inp[0]), bytes.fromhex(inp[1]))
-        plain = observe(lambda: b"".join(I.apply_delta(base, delta)).hex(), details, "bytes")
+        plain = observe(lambda: rep(b"".join(I.apply_delta(base, delta))), details, "bytes")
         h = len(delta) // 2
-        chunked = observe(lambda: b"".join(I.apply_delta([base[:1], base[1:]], [delta[:h], delta[h:]])).hex(),
+        chunked = observe(lambda: rep(b"".join(I.apply_delta([base[:1], base[1:]], [delta[:h], delta[h:]]))),
                           details, "chunks")
         return [plain, chunked]
     if fam == "cdelta":
@@ -204,16 +205,16 @@ def run_case(I: Impl, fam: str, inp, exp, details: dict):
         def enc_dec():
             d = b"".join(I.create_delta(base, target))
             details["delta"] = d.hex()
-            return b"".join(I.apply_delta(base, d)).hex()
+            return rep(b"".join(I.apply_delta(base, d)))
 
         def enc_dec_chunks():
             d = b"".join(I.create_delta([base[:1], base[1:]], [target[:1], target[1:]]))
             details["delta_chunks"] = d.hex()
-            return b"".join(I.apply_delta(base, d)).hex()
+            return rep(b"".join(I.apply_delta(base, d)))
         out = [observe(enc_dec, details, "create"), observe(enc_dec_chunks, details, "create-chunks")]
         if exp is not None:
             ref = bytes(exp)
-            out.append(observe(lambda: b"".join(I.apply_delta(base, ref)).hex(), details, "decode-reference-delta"))
+            out.append(observe(lambda: rep(b"".join(I.apply_delta(base, ref))), details, "decode-reference-delta"))
         return out
     if fam == "bisect":
         table, lo, hi, key, offc, id_len = inp
@@ -287,7 +288,7 @@ def expected(fam: str, inp, exp):
         o = ["v", bytes(exp[2]).hex()] if exp[0] == "ok" else ["f"]
         return [o, o]
     if fam == "cdelta":
-        t = bytes(inp[1]).hex() if not isinstance(inp[1], str) else inp[1]
+        t = rep(bytes(inp[1]) if not isinstance(inp[1], str) else bytes.fromhex(inp[1]))
         return [["v", t]] * (3 if exp is not None else 2)
     if fam == "bisect":
         return [["v", exp[1]] if exp[0] == "val" else ["v", None] if exp[0] == "none" else ["f"]]
